@@ -12,10 +12,13 @@ RULE = ("tls: TLS mode {none, opportunistic, required, wrapper} x server {no STA
         "cleartext injected after the 220, different capabilities before/after TLS} x certificate {trusted+right name, trusted+wrong name, "
         "self-signed, expired} x {added root, store none/default} x the two danger switches x credentials present/absent, sync (native-tls) "
         "and tokio (tokio-native-tls) [the full grid of mode x certificate x switches x server kind is enumerated], plus random faults inside "
-        "TLS. Non-trivial = a handshake is attempted or STARTTLS is refused / not offered; distinct = distinct case lines.")
+        "TLS; ctor: relay / starttls_relay / builder defaults / connection URLs (scheme x tls parameter x port x credentials) and the "
+        "TLS mode and port they configure. Non-trivial = a handshake is attempted or STARTTLS is refused / not offered; distinct = distinct case lines.")
 TRUSTED_BASE = ["Lean 4 kernel", "axioms: propext, Quot.sound, Classical.choice at most (see axioms per theorem)",
                 "native-tls / OpenSSL handshake and X.509 verification (assumption A7): the handshake outcome is an input of the model; the "
                 "expected outcome table expectHandshake is compared with real handshakes against fixture certificates on every run",
+                "the Debug text of SmtpTransportBuilder / AsyncSmtpTransportBuilder (port, TLS mode and server of the convenience "
+                "constructors and connection URLs are read off it; an unreadable text is reported as a broken correspondence)",
                 "harness lvh + scripted TLS peer + fixtures/ + line protocol + this orchestrator"]
 ASSUMPTIONS = ["accept_invalid_certs turns all verification off in native-tls/OpenSSL (so it also accepts a wrong name)",
                "the system trust store does not contain the fixture root",
